@@ -1,5 +1,6 @@
-(* Glue for the generated C11 correspondence shards (R-lemmas discharged by interval). *)
-From Coq Require Import Reals List Bool Arith.
+(* Glue for the generated C11 correspondence shards (R-lemmas discharged by interval,
+   exact clauses by reflexivity).  Only definitions, two small bridging lemmas and tactics. *)
+From Coq Require Import Reals List Bool Arith ZArith.
 From Interval Require Import Tactic.
 From LV Require Import Goose.DA.
 Import ListNotations.
@@ -16,39 +17,96 @@ Definition traj (c : daconst) (s0 : R) (accs : list R) (i : nat) : dastate :=
 Definition final (c : daconst) (s0 : R) (accs : list R) : dastate :=
   da_epoch c (mkDA s0 0 0 0) accs.
 
-(* ---- kernels driven by the engine -------------------------------------------------------- *)
-Definition ks_of (s : R) : kstate unit := mkKS (mkDA s 0 0 0) tt.
+(* da_init called on an object that still carries the tuning state [p] of an earlier epoch:
+   step size kept exactly, error sum exactly 0, average and bias recomputed *)
+Definition init_ok (p o : dastate) (tl tm : R) : Prop :=
+  let n := da_init p in
+  step n = step o /\ esum n = esum o /\ close (lavg n) (lavg o) tl /\ close (mu n) (mu o) tm.
 
-(* the kernel state stored after the i-th transition of an epoch of type ety that the kernel
-   entered with step size s *)
+(* one da_step call on the (observed) state [p] *)
+Definition step_ok (c : daconst) (p : dastate) (a : R) (tie : nat) (o : dastate) (ts te tl : R) : Prop :=
+  let n := da_step c p a tie in
+  close (step n) (step o) ts /\ close (esum n) (esum o) te /\ close (lavg n) (lavg o) tl
+  /\ mu n = mu o.
+
+(* da_finalize on the (observed) state [p]: only the step size changes *)
+Definition fin_ok (p o : dastate) (ts : R) : Prop :=
+  let n := da_finalize p in
+  close (step n) (step o) ts /\ esum n = esum o /\ lavg n = lavg o /\ mu n = mu o.
+
+(* the whole epoch from scratch: da_init, all steps, da_finalize (the final step size is
+   exp of the final average, so the average is pinned through it) *)
+Definition scratch_ok (c : daconst) (s0 : R) (accs : list R) (o : dastate) (ts te tm : R) : Prop :=
+  let n := final c s0 accs in
+  close (step n) (step o) ts /\ close (esum n) (esum o) te /\ close (mu n) (mu o) tm.
+
+(* ---- kernels driven by the engine -------------------------------------------------------- *)
+(* the rest of a kernel state = bit patterns of the float32 inverse mass matrix (HMC/NUTS), [] else *)
+Definition ks := kstate (list Z).
+Definition mk (s e l m : R) (r : list Z) : ks := mkKS (mkDA s e l m) r.
+
+(* what Engine._end_epoch does to the kernel state after the last transition of an epoch *)
+Definition close_epoch (k : kernel) (ety : etype) (hist : option (R * list Z)) (last : ks) : ks :=
+  match ety with
+  | Initial => last
+  | _ => let s := end_epoch k last in if is_adaptation ety then tune k ety hist s else s
+  end.
+
+(* ... and the state the next epoch's first transition is called with *)
+Definition enter (k : kernel) (ety_prev : etype) (hist : option (R * list Z)) (last : ks) : ks :=
+  start_epoch k (close_epoch k ety_prev hist last).
+
+(* bridging lemmas: close_epoch / enter are literally the pieces of the model's run_epoch *)
+Lemma run_epoch_close k c ety hist (s : ks) accs :
+  run_epoch k c ety hist s accs
+  = match ety with
+    | Initial => s
+    | _ => close_epoch k ety hist (transitions k c ety (start_epoch k s) 0 accs)
+    end.
+Proof. destruct ety; reflexivity. Qed.
+
+Lemma transitions_snoc k c ety (s : ks) tie accs a :
+  transitions k c ety s tie (accs ++ [a])
+  = transition k c ety (transitions k c ety s tie accs) a (tie + length accs).
+Proof.
+  revert s tie. induction accs as [|b r IH]; intros s tie; cbn [app transitions length].
+  - rewrite Nat.add_0_r. reflexivity.
+  - rewrite IH. f_equal. rewrite Nat.add_succ_r. reflexivity.
+Qed.
+
+(* a stored transition whose predecessor [p] was stored in the same epoch.  The MODEL decides
+   whether this is a dual-averaging update (compared within tolerances) or must leave the state
+   exactly as it was (bit-identical). *)
+Definition trans_agrees (k : kernel) (c : daconst) (ety : etype) (p : ks) (a : R) (tie : nat) (o : ks)
+           (ts te tl : R) : Prop :=
+  let n := transition k c ety p a tie in
+  if is_adaptation ety && tunes k then
+    close (step (da n)) (step (da o)) ts /\ close (esum (da n)) (esum (da o)) te
+    /\ close (lavg (da n)) (lavg (da o)) tl /\ mu (da n) = mu (da o) /\ rest n = rest o
+  else n = o.
+
+(* the first stored transition of an epoch: [last] is the last state stored in the previous epoch *)
+Definition first_agrees (k : kernel) (c : daconst) (ety ety_prev : etype) (hist : option (R * list Z))
+           (last : ks) (a : R) (o : ks) (ts te tl tm : R) : Prop :=
+  let n := transition k c ety (enter k ety_prev hist last) a 0 in
+  close (step (da n)) (step (da o)) ts /\ close (esum (da n)) (esum (da o)) te
+  /\ close (lavg (da n)) (lavg (da o)) tl /\ close (mu (da n)) (mu (da o)) tm /\ rest n = rest o.
+
+(* kept from the first version of the glue (whole trajectories through the kernel model) *)
+Definition ks_of (s : R) : kstate unit := mkKS (mkDA s 0 0 0) tt.
 Definition ktraj (k : kernel) (c : daconst) (ety : etype) (s : R) (accs : list R) (i : nat) : dastate :=
   da (transitions k c ety (start_epoch k (ks_of s)) 0 (firstn i accs)).
 
-Definition hist_of (adj : option R) : option (R * unit) :=
-  match adj with Some a => Some (a, tt) | None => None end.
-
-(* the step size with which the next epoch is entered, given the last stored state of this one:
-   end_epoch, then tune *)
-Definition next_start (k : kernel) (ety : etype) (adj : option R) (last : dastate) : R :=
-  let ks := end_epoch k (mkKS last tt) in
-  step (da (if is_adaptation ety then tune k ety (hist_of adj) ks else ks)).
-
-(* whole schedule from the initial step size; the state the following epoch starts its
-   transitions with *)
-Definition sched_of (l : list (etype * list R * option R)) : list (epoch_spec unit) :=
-  map (fun e => match e with (ety, accs, adj) => (ety, accs, hist_of adj) end) l.
-
-Definition after_schedule (k : kernel) (c : daconst) (s0 : R) (l : list (etype * list R * option R)) : dastate :=
-  da (start_epoch k (run_schedule k c (ks_of s0) (sched_of l))).
-
 Ltac da_unfold :=
   cbv beta iota zeta delta
-    [close traj final ktraj ks_of hist_of next_start sched_of after_schedule
+    [close traj final ktraj ks_of mk ks
+     init_ok step_ok fin_ok scratch_ok trans_agrees first_agrees close_epoch enter
      da_steps da_step da_init da_finalize da_epoch da_eta
      step esum lavg mu c_delta c_gamma c_kappa c_t0
      da rest transitions transition adaptive_transition standard_transition
      start_epoch end_epoch tune epoch_core run_epoch run_schedule
      is_adaptation is_slow etype_num tunes has_mm
-     firstn map fold_left andb Nat.ltb Nat.leb Nat.eqb Nat.add INR].
+     firstn map fold_left andb Nat.ltb Nat.leb Nat.eqb Nat.add].
 
-Ltac da_close := da_unfold; interval with (i_prec 64).
+Ltac da_leaf := first [ reflexivity | interval with (i_prec 64) ].
+Ltac da_close := da_unfold; first [ reflexivity | repeat split; da_leaf ].
